@@ -95,6 +95,10 @@ def parseOp (f : List String) : HOp :=
     | _, _, _ => .bad
   | ["fl", n, p] => match stringOfHex? n, parseBool01 p with
     | some x, some pr => .ops [.forceLeave x pr 0] | _, _ => .bad
+  -- a claim about the local node delivered while a Join() call is in flight: a Join in flight does not
+  -- change claim handling, and a Join that contacts nobody broadcasts nothing
+  | ["jl", t, p] => match parseLT t, parseBool01 p with
+    | some lt, some pr => .ops [.leaveMsg selfName lt pr 0] | _, _ => .bad
   | ["oj"] => .ops [.ownJoin 0]
   | ["lv", t] => match parseSmall t with
     | some a => .leave a | none => .bad
